@@ -14,7 +14,7 @@ RULE = ("every 2-input <=2-gate circuit (sampled) and seeded random lint-clean c
         "has a gate"
         "; plus: nets named tie_hi/tie_lo/tie_a (gate or constant), a non-output constant driving a blackbox input pin")
 BOUND = "circuits <= 14 nodes, <= 9 free signals; 4/16 hash seeds"
-ESC = ["\\a[0]", "\\b[1]", "\\n$1", "\\w-x"]
+ESC = ["\\a[0]", "\\b[1]", "\\n$1", "\\w-x", "\\sel", "\\en_1"]   # the last two: escaped although they would not need it
 SYN_RE = re.compile(r"^(and|or|xor|xnor|not|mux_n|mux_a0|mux_a1|mux_o)_")
 
 
@@ -34,6 +34,10 @@ def cases(tier, seed):
                   "edges": [[f, nm] for f in fis] + [[nm, "y"], ["a", "y"]], "bbs": {}}
             for beh in (False, True):
                 yield {"c": cd, "beh": beh, "file": False}
+    # the same file path written twice with different circuits of equally long text (and / xor / nor ...)
+    for t0, t1 in (("and", "xor"), ("nor", "xor"), ("or", "or")):
+        mk = lambda t: {"name": "c", "nodes": [["a", "input", False], ["b", "input", False], ["y", t, True]], "edges": [["a", "y"], ["b", "y"]], "bbs": {}}
+        yield {"c": mk(t1), "beh": False, "file": True, "before": mk(t0)}
     # a constant that is not an output and drives a blackbox input pin (both writer styles)
     for k in ("0", "1"):
         cd = {"name": "c", "nodes": [["a", "input", False], ["rst_off", k, False], ["u.d", "bb_input", False], ["u.r", "bb_input", False],
@@ -82,6 +86,10 @@ def run_case(case):
             d = tempfile.mkdtemp(prefix="verif_c03_")
             try:
                 path = os.path.join(d, f"{c.name}.v")
+                if case.get("before") is not None:
+                    # another circuit was written to and read from this very path a moment ago
+                    cg.to_file(circ.build(case["before"]), path, behavioral=beh)
+                    cg.from_file(path, blackboxes=bbtypes)
                 cg.to_file(c, path, behavioral=beh)
                 text = open(path).read()
                 r = cg.from_file(path, blackboxes=bbtypes)
